@@ -98,6 +98,16 @@ pub(crate) fn verify_nonmembership<TC: Configuration>(
         ));
     }
 
+    // Verify that neither child is itself a prefix of the proof's label: otherwise the label
+    // lies in that child's subtree and longest_prefix is not the deepest matching node
+    for child in proof.longest_prefix_children.iter() {
+        if child.label.label_len > 0 && child.label.is_prefix_of(&proof.label) {
+            return Err(VerificationError::NonMembershipProof(
+                "One of the children's labels is a prefix of the proof's label".to_string(),
+            ));
+        }
+    }
+
     // Verify that proof.longest_prefix is a prefix of the proof's label
     if !proof.longest_prefix.is_prefix_of(&proof.label) {
         return Err(VerificationError::NonMembershipProof(
